@@ -633,3 +633,256 @@ Proof.
     by (intros j Hj; apply in_seq in Hj; apply RE; lia).
   lia.
 Qed.
+
+(* the four walked segments, position by position *)
+Lemma segN_nth M t j x : rlo t <= nrows M ->
+  nth x (segN M t j) false = if x <? rlo t then cell M (rlo t - S x) j else false.
+Proof.
+  intros H. unfold segN. destruct (x <? rlo t) eqn:E; b2p.
+  - rewrite nth_rev_firstn by (rewrite ?length_column; lia). apply nth_column.
+  - apply nth_overflow. rewrite rev_length, firstn_length, length_column. lia.
+Qed.
+Lemma segS_nth M t j x : nth x (segS M t j) false = cell M (S (rhi t) + x) j.
+Proof. unfold segS. rewrite nth_skipn'. apply nth_column. Qed.
+Lemma segW_nth M t i x : clo t <= length (nth i M []) ->
+  nth x (segW M t i) false = if x <? clo t then cell M i (clo t - S x) else false.
+Proof.
+  intros H. unfold segW. destruct (x <? clo t) eqn:E; b2p.
+  - rewrite nth_rev_firstn by lia. reflexivity.
+  - apply nth_overflow. rewrite rev_length, firstn_length. lia.
+Qed.
+Lemma segE_nth M t i x : nth x (segE M t i) false = cell M i (S (chi t) + x).
+Proof. unfold segE. rewrite nth_skipn'. reflexivity. Qed.
+
+Lemma any_cell_intro M r0 rn c0 cn :
+  (forall i j, In i (seq r0 rn) -> In j (seq c0 cn) -> cell M i j = false) ->
+  any_cell M r0 rn c0 cn = false.
+Proof.
+  intros H. unfold any_cell. destruct (existsb _ (seq r0 rn)) eqn:E; [|reflexivity].
+  apply existsb_exists in E. destruct E as (i & Hi & E). apply existsb_exists in E.
+  destruct E as (j & Hj & E). rewrite (H i j Hi Hj) in E. discriminate.
+Qed.
+
+Lemma srect_eqb_refl t : srect_eqb t t = true.
+Proof. unfold srect_eqb. rewrite !Nat.eqb_refl. reflexivity. Qed.
+
+Ltac star_cases' Q i j H :=
+  destruct (Q i j H) as [(?&?)|[(?&?&?)|[(?&?&?)|[(?&?&?)|(?&?&?)]]]].
+
+(* ====================== 7. a closed star centre is offered ====================== *)
+Section Closed.
+  Variable M : BoolMatrix.
+  Variable t : SRect.
+  Hypothesis W : wf_matrix M = true.
+  Hypothesis St : star (cell M) t.
+  Hypothesis Cl : closed (cell M) t.
+
+  Let sup := fun i j => cell_support M i j W.
+
+  Lemma closed_trunk_full : trunk_full M t.
+  Proof.
+    destruct (star_in_grid (cell M) (nrows M) (ncols M) sup t St) as [G1 G2].
+    destruct St as (A & B & F & _). split; [unfold rect_ok; lia|exact F].
+  Qed.
+
+  Lemma closed_in_rows : In t (get_trunks_matrix M).
+  Proof.
+    destruct closed_trunk_full as [(T1 & T2 & T3 & T4) TF].
+    destruct Cl as (Cw & Ce & Cn & Cs).
+    apply trunk_by_rows; auto.
+    - intros k Hk. exact (star_rowconvex (cell M) t k St Hk).
+    - exact (closed_west (cell M) t Cw).
+    - exact (closed_east (cell M) t Ce).
+    - exact (closed_north (cell M) t Cn).
+    - exact (closed_south (cell M) t Cs).
+  Qed.
+
+  Lemma closed_in_cols : In (swap_rect t) (get_trunks_matrix (transpose M)).
+  Proof.
+    destruct closed_trunk_full as [(T1 & T2 & T3 & T4) TF].
+    destruct Cl as (Cw & Ce & Cn & Cs).
+    apply trunk_by_rows; cbn [swap_rect rlo rhi clo chi]; auto.
+    - rewrite transpose_length. exact T4.
+    - intros i j Hi Hj. rewrite cell_transpose by exact W. apply TF; assumption.
+    - intros k Hk x y z Hxyz. rewrite !cell_transpose by exact W.
+      exact (star_colconvex (cell M) t k St Hk x y z Hxyz).
+    - destruct (closed_north (cell M) t Cn) as [Q|(j & Hj & Q)]; [left; exact Q|right].
+      exists j. rewrite cell_transpose by exact W. auto.
+    - destruct (closed_south (cell M) t Cs) as (j & Hj & Q).
+      exists j. rewrite cell_transpose by exact W. auto.
+    - destruct (closed_west (cell M) t Cw) as [Q|(j & Hj & Q)]; [left; exact Q|right].
+      exists j. rewrite cell_transpose by exact W. auto.
+    - destruct (closed_east (cell M) t Ce) as (j & Hj & Q).
+      exists j. rewrite cell_transpose by exact W. auto.
+  Qed.
+
+  Lemma closed_corners : empty_corners M t = true.
+  Proof.
+    unfold empty_corners. apply negb_true_iff.
+    rewrite !orb_false_iff. repeat split; apply any_cell_intro; intros i j Hi Hj;
+      apply in_seq in Hi; apply in_seq in Hj;
+      apply (star_corner (cell M) t i j St); lia.
+  Qed.
+
+  Lemma closed_potential : In t (potential_trunks M).
+  Proof.
+    unfold potential_trunks. apply filter_In. split; [exact closed_in_rows|].
+    apply andb_true_iff. split; [|exact closed_corners].
+    apply existsb_exists. exists (swap_rect (swap_rect t)). split.
+    - apply in_map. exact closed_in_cols.
+    - destruct t; cbn. apply srect_eqb_refl.
+  Qed.
+
+  Lemma closed_valid : valid M t = true.
+  Proof.
+    pose proof closed_trunk_full as TFull. destruct TFull as [(T1 & T2 & T3 & T4) TF].
+    destruct St as (A & B & F & Sp).
+    apply valid_intro; [exact W|exact closed_trunk_full|exact closed_corners| | | |].
+    - intros j Hj. apply prefix_run. intros x y Hxy. rewrite !segN_nth by lia.
+      destruct (x <? rlo t) eqn:E; [|discriminate]. b2p.
+      replace (y <? rlo t) with true by (symmetry; apply Nat.ltb_lt; lia).
+      intros Hx. star_cases' Sp (rlo t - S x) j Hx; try lia.
+      match goal with X : forall i', _ -> cell M i' j = true |- _ => apply X; lia end.
+    - intros j Hj. apply prefix_run. intros x y Hxy. rewrite !segS_nth.
+      intros Hx. star_cases' Sp (S (rhi t) + x) j Hx; try lia.
+      match goal with X : forall i', _ -> cell M i' j = true |- _ => apply X; lia end.
+    - intros i Hi. apply prefix_run. intros x y Hxy.
+      rewrite !segW_nth by (rewrite (wf_rows M W i) by lia; lia).
+      destruct (x <? clo t) eqn:E; [|discriminate]. b2p.
+      replace (y <? clo t) with true by (symmetry; apply Nat.ltb_lt; lia).
+      intros Hx. star_cases' Sp i (clo t - S x) Hx; try lia.
+      match goal with X : forall j', _ -> cell M i j' = true |- _ => apply X; lia end.
+    - intros i Hi. apply prefix_run. intros x y Hxy. rewrite !segE_nth.
+      intros Hx. star_cases' Sp i (S (chi t) + x) Hx; try lia.
+      match goal with X : forall j', _ -> cell M i j' = true |- _ => apply X; lia end.
+  Qed.
+
+  Lemma closed_offered : In (build_instance M t) (instances M).
+  Proof.
+    unfold instances. apply in_flat_map. exists t. split; [exact closed_potential|].
+    unfold mk_instance. rewrite closed_valid. left; reflexivity.
+  Qed.
+End Closed.
+
+(* ---- from the brute-force test / a decomposition to a star ---- *)
+Lemma allb_forall {A} (p : A -> bool) l : allb p l = true -> forall x, In x l -> p x = true.
+Proof. rewrite allb_forallb. apply forallb_forall. Qed.
+
+Lemma cellwise_star M T : wf_matrix M = true -> rect_ok (nrows M) (ncols M) T ->
+  cellwise_ok M T = true -> star (cell M) T.
+Proof.
+  intros W (T1 & T2 & T3 & T4) H. unfold cellwise_ok in H.
+  assert (E : forall i j, i < nrows M -> j < ncols M ->
+            (if in_rectb T i j then cell M i j
+             else if cell M i j then strip_ok M T i j else true) = true).
+  { intros i j Hi Hj. pose proof (allb_forall _ _ H i ltac:(apply in_seq; lia)) as H1. cbv beta in H1.
+    exact (allb_forall _ _ H1 j ltac:(apply in_seq; lia)). }
+  clear H. unfold star. split; [exact T1|]. split; [exact T3|]. split.
+  - intros i j Hi Hj. specialize (E i j ltac:(lia) ltac:(lia)).
+    replace (in_rectb T i j) with true in E; [exact E|]. symmetry. apply in_rectb_iff. split; assumption.
+  - intros i j Hij. destruct (cell_support M i j W Hij) as [Hi Hj].
+    specialize (E i j Hi Hj). destruct (in_rectb T i j) eqn:ET.
+    { left. apply in_rectb_iff in ET. exact ET. }
+    right. rewrite Hij in E. unfold strip_ok in E.
+    destruct ((clo T <=? j) && (j <=? chi T)) eqn:EC.
+    + b2p. destruct (i <? rlo T) eqn:E1; b2p.
+      * left. split; [lia|]. split; [lia|]. intros i' Hi'.
+        apply (allb_forall _ _ E i'). apply in_seq. lia.
+      * destruct (rhi T <? i) eqn:E2; [|discriminate]. b2p.
+        right; left. split; [lia|]. split; [lia|]. intros i' Hi'.
+        apply (allb_forall _ _ E i'). apply in_seq. lia.
+    + destruct ((rlo T <=? i) && (i <=? rhi T)) eqn:ER; [|discriminate]. b2p.
+      destruct (j <? clo T) eqn:E1; b2p.
+      * right; right; left. split; [lia|]. split; [lia|]. intros j' Hj'.
+        apply (allb_forall _ _ E j'). apply in_seq. lia.
+      * destruct (chi T <? j) eqn:E2; [|discriminate]. b2p.
+        right; right; right. split; [lia|]. split; [lia|]. intros j' Hj'.
+        apply (allb_forall _ _ E j'). apply in_seq. lia.
+Qed.
+
+(* ====================== completeness, any size ====================== *)
+Theorem strop_complete_star : forall M T, wf_matrix M = true -> star (cell M) T ->
+  exists t, In (build_instance M t) (instances M).
+Proof.
+  intros M T W St.
+  destruct (grow (cell M) (nrows M) (ncols M) (fun i j => cell_support M i j W) _ T St (le_n _))
+    as (t & St' & Cl).
+  exists t. apply closed_offered; assumption.
+Qed.
+
+Theorem strop_complete : forall M T Bs, wf_matrix M = true -> decomp M T Bs -> is_strop M = true.
+Proof.
+  intros M T Bs W D.
+  destruct (strop_complete_star M T W) as (t & Ht).
+  - apply cellwise_star; [exact W|exact (proj1 D)|exact (decomp_cellwise M T Bs D)].
+  - unfold is_strop. destruct (instances M); [destruct Ht|reflexivity].
+Qed.
+
+Lemma all_rects_sound nr nc T : In T (all_rects nr nc) -> rect_ok nr nc T.
+Proof.
+  unfold all_rects. intros H. apply in_flat_map in H. destruct H as (a & Ha & H).
+  apply in_flat_map in H. destruct H as (b & Hb & H).
+  apply in_flat_map in H. destruct H as (c & Hc & H).
+  apply in_map_iff in H. destruct H as (d & <- & Hd).
+  apply in_seq in Ha. apply in_seq in Hb. apply in_seq in Hc. apply in_seq in Hd.
+  unfold rect_ok. cbn. lia.
+Qed.
+
+Theorem strop_complete_has_decomp : forall M, wf_matrix M = true -> has_decomp M = true ->
+  is_strop M = true.
+Proof.
+  intros M W H. unfold has_decomp in H. rewrite anyb_existsb in H. apply existsb_exists in H.
+  destruct H as (T & HT & HC).
+  destruct (strop_complete_star M T W) as (t & Ht).
+  - apply cellwise_star; [exact W|exact (all_rects_sound _ _ _ HT)|exact HC].
+  - unfold is_strop. destruct (instances M); [destruct Ht|reflexivity].
+Qed.
+
+(* the three readings of "a decomposition exists" coincide with is_strop, for every size *)
+Theorem strop_iff : forall M, wf_matrix M = true ->
+  (is_strop M = true <-> has_decomp M = true) /\
+  (is_strop M = true <-> exists T Bs, decomp M T Bs).
+Proof.
+  intros M W.
+  assert (S : is_strop M = true -> exists T Bs, decomp M T Bs).
+  { intros H. unfold is_strop in H. destruct (instances M) as [|inst l] eqn:E; [discriminate|].
+    exists (trunk inst), (branches inst). apply strop_sound; [exact W|]. rewrite E. left; reflexivity. }
+  split; split.
+  - intros H. destruct (S H) as (T & Bs & D). exact (decomp_has_decomp M T Bs D).
+  - apply strop_complete_has_decomp. exact W.
+  - exact S.
+  - intros (T & Bs & D). exact (strop_complete M T Bs W D).
+Qed.
+
+(* in terms of the shape of the matrix (the form of the bounded theorem, without its bound) *)
+Lemma shape_wf M R C : 1 <= R -> 1 <= C -> shape M R C -> wf_matrix M = true.
+Proof.
+  intros HR HC [HL HF]. destruct M as [|row M]; [cbn in HL; lia|].
+  assert (Hc : ncols (row :: M) = C) by (inversion HF; subst; reflexivity).
+  unfold wf_matrix. rewrite Hc. apply andb_true_iff. split.
+  - apply andb_true_iff. split; apply Nat.ltb_lt; [cbn; lia|lia].
+  - apply forallb_forall. intros r Hr. rewrite Forall_forall in HF. apply Nat.eqb_eq. apply HF. exact Hr.
+Qed.
+
+Theorem strop_complete_shape : forall R C M, 1 <= R -> 1 <= C -> shape M R C ->
+  (is_strop M = true <-> has_decomp M = true) /\
+  (is_strop M = true <-> exists T Bs, decomp M T Bs) /\
+  (forall inst, In inst (instances M) -> decomp M (trunk inst) (branches inst)).
+Proof.
+  intros R C M HR HC HS. pose proof (shape_wf M R C HR HC HS) as W.
+  destruct (strop_iff M W) as [A B]. split; [exact A|]. split; [exact B|].
+  intros inst Hin. apply strop_sound; assumption.
+Qed.
+
+(* non-vacuity: a 5 x 6 matrix (30 cells, beyond the exhaustive sweep) whose decomposition
+   trunk below is NOT a candidate of the code (it can be widened to columns 1..4 and
+   heightened to rows 0..3), and the trunks of the instances the model offers instead *)
+Definition big_example : BoolMatrix :=
+  let T := true in let F := false in
+  [[F;F;T;T;F;F]; [F;T;T;T;T;F]; [T;T;T;T;T;T]; [F;T;T;T;T;F]; [F;F;F;T;F;F]].
+Example strop_complete_ex :
+  wf_matrix big_example = true /\
+  decomp_b big_example (mkSR 1 3 2 3) [mkSR 0 0 2 3; mkSR 4 4 3 3; mkSR 1 1 1 1; mkSR 2 2 0 1;
+                                       mkSR 3 3 1 1; mkSR 1 1 4 4; mkSR 2 2 4 5; mkSR 3 3 4 4] = true /\
+  map trunk (instances big_example) = [mkSR 0 3 2 3; mkSR 0 4 3 3; mkSR 1 3 1 4; mkSR 2 2 0 5].
+Proof. vm_compute. repeat split. Qed.
